@@ -21,8 +21,12 @@ Clauses(c) ==
       kf == IsXor(c.op) /\ KF15Guard(pre, c.vm, As[1])
       o1 == Outcome(c, r)
       o2 == IF kf THEN Outcome(c, OpSymDiff_KF15(pre, c.vm, As[1])) ELSE o1
+      kf24 == c.op = "copyadd" /\ KF24Guard(c.a)
+      o3 == IF kf24 THEN Outcome(c, OpAdd(pre, "id", c.a[2])) ELSE o1
       evs == [k \in 1..Len(c.evs) |-> [removed |-> S(c.evs[k].removed), added |-> S(c.evs[k].added)]]
-  IN (IF o1 = {} THEN {} ELSE IF kf /\ o2 = {} THEN {"KF15"} ELSE o1)
+  IN (IF o1 = {} THEN {} ELSE IF kf /\ o2 = {} THEN {"KF15"} ELSE IF kf24 /\ o3 = {} THEN {"KF24"} ELSE o1)
+     \* the exception class of the builtin set on the same (validated) arguments is one the specification allows
+     \cup (IF "bexc" \notin DOMAIN c \/ c.bexc = "" \/ c.bexc \in r.excs THEN {} ELSE {"spec-vs-builtin-exception"})
      \cup (IF "suite" \in DOMAIN c \/ S(c.builtin) = r.post THEN {} ELSE {"spec-vs-builtin-set"})   \* (test-suite records carry no builtin twin)
      \cup (IF (IF c.op \in {"construct", "copyadd"} THEN c.evs = <<>> ELSE EventsOK(pre, evs, S(c.post)))
            THEN {} ELSE {"event-law"})
